@@ -23,7 +23,8 @@ then runs the quick tier of the named check(s) against the patched worktree (evi
 missed, skipped vacuously or ended in a harness error the first time - what was added each time is in the change's `history` /
 `after_strengthening` field and in 8.7 / 8.8. For wave 4 the `first_run` field records what the first complete quick run of the named check
 reported; where a placement had already been added earlier in the same session the field says so. Patches of earlier waves that no longer
-applied after the fix: commits of session 3 were rebased by hand (same edit on the new context) and re-checked. One change (a one-shot
+applied after the fix: commits of session 3 were rebased by hand (same edit on the new context) and re-checked (their `history` records this, so the
+last column is also set for them). One change (a one-shot
 iterator passed as preserve list) was not kept: the property quantifies over lists and single strings.
 
 | id | seeded change (abridged) | detected by | strengthened |
